@@ -32,6 +32,13 @@ def total_width(cfg) -> int:
     return cfg["width"] * (cfg["elems"] or 1)
 
 
+def leaf_widths(cfg) -> list:
+    """Widths of the scalar leaves of a row, least significant first."""
+    if cfg.get("struct"):
+        return [f[0] for f in cfg["struct"]]
+    return [cfg["width"]] * (cfg["elems"] or 1)
+
+
 def en_width(cfg) -> int:
     if cfg["gran"] is None:
         return 1
@@ -53,6 +60,8 @@ def cfg_facts(cfg) -> dict:
         "array_shape": bool(cfg["elems"]),
         "array_elem_gt1": bool(cfg["elems"]) and cfg["width"] > 1,
         "multiport_memory": cfg["memtype"] != "Memory",
+        "struct_shape": bool(cfg.get("struct")),
+        "signed": bool(cfg.get("signed")),
     }
 
 
@@ -75,8 +84,14 @@ def zones_of(cfg) -> list:
     return z
 
 
+# zones whose defect is still present on the unchanged tree (known_findings.json); the other zones have been
+# repaired and are ordinary configurations
+LIVE_ZONES = ("F6",)
+
+
 class Scen(CompScenario):
     def build(self):
+        from amaranth import signed, unsigned
         from amaranth.lib import data
         from amaranth.lib.memory import Memory
         from transactron.lib.storage import MemoryBank
@@ -89,7 +104,12 @@ class Scen(CompScenario):
         self.gbits = self.tw // self.en_w  # data bits per enable bit
         self.full_mask = (1 << self.en_w) - 1
         self.transparent, self.ror = bool(c["transparent"]), bool(c["read_on_resp"])
-        shape = data.ArrayLayout(c["width"], c["elems"]) if c["elems"] else c["width"]
+        if c.get("struct"):
+            shape = data.StructLayout({f"f{k}": (signed(w) if sg else unsigned(w)) for k, (w, sg) in enumerate(c["struct"])})
+        elif c["elems"]:
+            shape = data.ArrayLayout(c["width"], c["elems"])
+        else:
+            shape = signed(c["width"]) if c.get("signed") else c["width"]
         mt = Memory if c["memtype"] == "Memory" else getattr(tmem, MEMTYPES[c["memtype"]])
         self.dut = MemoryBank(shape=shape, depth=self.depth, granularity=c["gran"], transparent=self.transparent,
                               read_on_resp=self.ror, read_ports=self.nr, write_ports=self.nw, memory_type=mt)
@@ -102,7 +122,7 @@ class Scen(CompScenario):
         # data leaves, least significant first (flat: one leaf; ArrayLayout: one per element)
         self.wleaves = [[n for n in self.inp if n.startswith(f"wr{j}.i.data")] for j in range(self.nw)]
         self.rleaves = [[n for n in self.obs if n.startswith(f"resp{i}.o.data")] for i in range(self.nr)]
-        self.leaf_w = c["width"]
+        self.leaf_ws = leaf_widths(c)
 
         # reference model
         self.mem = [0] * self.depth
@@ -111,13 +131,15 @@ class Scen(CompScenario):
         self.phase_idx = -1
         self.pool = list(range(self.depth))
         self.unready = 0
+        self.stall_port = 0
         return self.top
 
     # ---- helpers ----------------------------------------------------------------------------
     def pack(self, stim, names):
-        v = 0
-        for k, n in enumerate(names):
-            v |= (stim.get(n, 0) & ((1 << self.leaf_w) - 1)) << (k * self.leaf_w)
+        v, off = 0, 0
+        for n, w in zip(names, self.leaf_ws):
+            v |= (stim.get(n, 0) & ((1 << w) - 1)) << off
+            off += w
         return v
 
     def bitmask(self, mask):
@@ -161,6 +183,7 @@ class Scen(CompScenario):
             else:
                 self.pool = list(range(self.depth))
             self.pw = rng.choice([0.2, 0.5, 0.8, 1.0])
+            self.stall_port = rng.randrange(self.nr)
         pool = self.pool
         # (request rate, response rate, write rate, probability that a write aims at a pending row)
         preq, presp, pw, aim = {
@@ -171,21 +194,31 @@ class Scen(CompScenario):
             "fullpush": (1.0, p, self.pw, 0.8),  # keeps two pending, requests pushed against the full port
             "hitpending": (0.6, 0.35, 1.0, 0.95),
             "idle": (0.1, 0.1, 0.1, 0.3),
+            # one port's responses are withheld for the whole phase while its rows are written over and over and
+            # the other ports keep requesting and responding
+            "stallone": (0.9, 0.85, max(self.pw, 0.5), 0.85),
         }[kind]
         stim = {}
         pending_rows = []
+        stalled_rows = []
         for i in range(self.nr):
             n = len(self.q[i])
             pr_i = presp
             if kind == "fullpush" and n == 2:
                 pr_i = max(presp, 0.5)  # request and response together while the overflow buffer is occupied
+            if kind == "stallone" and i == self.stall_port:
+                pr_i = 0.0
             stim[f"req{i}.en"] = int(rng.random() < preq)
             stim[f"req{i}.i.addr"] = rng.choice(pool)
             stim[f"resp{i}.en"] = int(rng.random() < pr_i)
             for e in self.q[i]:
                 pending_rows.append(e["addr"])
+                if kind == "stallone" and i == self.stall_port:
+                    stalled_rows.append(e["addr"])
             if stim[f"req{i}.en"]:
                 pending_rows.append(stim[f"req{i}.i.addr"])
+        if stalled_rows:
+            pending_rows = stalled_rows
         used = set()
         for j in range(self.nw):
             en = int(rng.random() < pw)
@@ -202,9 +235,9 @@ class Scen(CompScenario):
             stim[f"wr{j}.i.addr"] = a
             # new data differ from the row's present content wherever possible (a stale answer shows)
             cur = self.mem[a]
-            for kk, n in enumerate(self.wleaves[j]):
-                lw = self.leaf_w
-                old = (cur >> (kk * lw)) & ((1 << lw) - 1)
+            for n, lw in zip(self.wleaves[j], self.leaf_ws):
+                old = cur & ((1 << lw) - 1)
+                cur >>= lw
                 r = rng.random()
                 v = (old ^ ((1 << lw) - 1)) if r < 0.3 else rng.getrandbits(lw)
                 if v == old and rng.random() < 0.8:
@@ -237,7 +270,16 @@ class Scen(CompScenario):
             after[a] = (mem[a] & ~bm) | (d & bm)
         seen_now = after if self.transparent else mem  # what a read "in this cycle" sees
 
+        if cyc == 0:
+            if self.depth == 1:
+                self.hit("depth_one")
+            if self.cfg.get("struct"):
+                self.hit("struct_shape")
+            if self.cfg.get("signed"):
+                self.hit("signed_shape")
+            self.hit("memory_type_" + self.cfg["memtype"])
         calls = []
+        withheld = [False] * nr  # a response is pending since >= 3 cycles and is not asked for
         for i in range(nr):
             q = self.q[i]
             n = len(q)
@@ -288,6 +330,16 @@ class Scen(CompScenario):
                 self.hit("resp_from_overflow")
             if resp_done and q[0]["age"] >= 3:
                 self.hit("resp_after_stall")
+                if i >= 1:
+                    self.hit("resp_after_stall_port_ge1")
+                if q[0]["age"] >= 8:
+                    self.hit("resp_after_long_stall")
+                if q[0]["hits"] >= 2:
+                    self.hit("resp_of_row_rewritten_while_stalled")
+                if n == 2 and q[1]["hits"] >= 1:
+                    self.hit("resp_after_stall_younger_pending_row_written")
+            if n > 0 and not resp_en and q[0]["age"] >= 3:
+                withheld[i] = True
             for pos, e in enumerate(q):
                 if e["addr"] in writes:
                     partial = writes[e["addr"]][2] != self.full_mask
@@ -296,6 +348,9 @@ class Scen(CompScenario):
                         self.hit("write_to_pending_row_in_response_cycle")
                     else:
                         self.hit("write_to_pending_row_between_req_and_resp")
+                        if e["age"] >= 4:
+                            self.hit("write_to_row_pending_since_ge4")
+                        e["hits"] += 1
                     self.hit("write_to_older_pending" if (pos == 0 and n == 2) else
                              "write_to_younger_pending" if pos == 1 else "write_to_only_pending")
                     if partial:
@@ -313,7 +368,15 @@ class Scen(CompScenario):
             for e in q:
                 e["age"] += 1
             if req_done:
-                q.append({"addr": a_req, "val": seen_now[a_req], "age": 1})
+                q.append({"addr": a_req, "val": seen_now[a_req], "age": 1, "hits": 0})
+        for i in range(nr):
+            if withheld[i]:
+                if any(c[2] for k, c in enumerate(calls) if k != i):
+                    self.hit("port_stalled_while_other_port_responds")
+                if any(c[1] for k, c in enumerate(calls) if k != i):
+                    self.hit("port_stalled_while_other_port_requests")
+                if calls[i][0] == 2 and stim.get(f"req{i}.en", 0):
+                    self.hit("req_refused_on_long_stalled_port")
         if len(writes) > 1:
             self.hit("simultaneous_writes")
         if any(w[2] != self.full_mask for w in writes.values()):
@@ -328,16 +391,24 @@ class Prop(PropBase):
         "quick": {"runs": 1000, "selftest_runs": 4, "shrink_budget_s": 5},
         "thorough": {"runs": 20000, "selftest_runs": 32, "shrink_budget_s": 30},
     }
-    rule = ("one run = one (transparent, read_on_resp, read ports, write ports, granularity, shape, memory_type, depth) "
+    rule = ("one run = one (transparent, read_on_resp, read ports, write ports, granularity, shape (plain up to 32 bits, "
+            "signed, array, struct), memory_type (all five, balanced), depth 1-16) "
             "configuration driven for 60-200 cycles by a seeded phase plan (random / response stall / release / "
-            "stream / push against two pending / writes aimed at pending rows / idle) over a small per-phase row "
+            "stream / push against two pending / writes aimed at pending rows / one port stalled for the whole phase "
+            "while its rows are rewritten and the other ports stream / idle) over a small per-phase row "
             "pool; distinct = distinct (configuration, per read port (pending count, request ran, response ran, a "
             "pending row written), number of writes); non-trivial = two responses pending or a pending row written")
     expected_cov = ["two_pending", "req_refused_at_two_pending", "req_with_resp_while_overflow_occupied",
                     "req_and_resp_same_cycle", "overflow_buffer_filled", "resp_from_overflow", "resp_after_stall",
                     "write_to_row_in_request_cycle", "write_to_pending_row_between_req_and_resp",
                     "write_to_pending_row_in_response_cycle", "write_to_older_pending", "write_to_younger_pending",
-                    "write_to_only_pending", "partial_write", "partial_write_to_pending_row", "simultaneous_writes"]
+                    "write_to_only_pending", "partial_write", "partial_write_to_pending_row", "simultaneous_writes",
+                    "depth_one", "struct_shape", "signed_shape", "memory_type_Memory", "memory_type_MultiRead",
+                    "memory_type_XOR", "memory_type_XORILVT", "memory_type_OneHotILVT",
+                    "port_stalled_while_other_port_responds", "port_stalled_while_other_port_requests",
+                    "req_refused_on_long_stalled_port", "resp_after_long_stall", "resp_after_stall_port_ge1",
+                    "resp_after_stall_younger_pending_row_written", "resp_of_row_rewritten_while_stalled",
+                    "write_to_row_pending_since_ge4"]
     real = ["transactron.lib.storage.MemoryBank", "amaranth.lib.memory.Memory", "transactron multiport memories (as memory_type)",
             "transactron.lib.adapters.AdapterTrans", "TransactionManager + scheduler", "amaranth pysim"]
     stubs = ["cycle driver (stimulus)", "array + per-port response queue reference model"]
@@ -349,29 +420,37 @@ class Prop(PropBase):
     MIXED_RATE = 0.02
 
     def _draw(self, rng, big, want):
-        memtype = "Memory" if rng.random() < 0.72 else rng.choice(["MultiRead", "XOR", "XORILVT", "OneHotILVT"])
+        memtype = rng.choice(["Memory", "Memory", "MultiRead", "XOR", "XORILVT", "OneHotILVT"])
         if want in ("F3", "F5", "F6"):
             memtype = rng.choice(ILVT)
         elif want == "N1":
             memtype = rng.choice(["MultiRead", "XORILVT", "OneHotILVT"])
         elif want == "F7" and rng.random() < 0.8:
             memtype = "Memory"
-        depth = rng.choice([2, 3, 4, 5, 6, 7, 8, 9, 12])
-        width = rng.choice([2, 3, 4, 5, 6, 8])
-        elems = 0
-        if want != "F3" and rng.random() < (0.9 if want == "N1" else 0.15):  # ArrayLayout rows: granularity counts elements
-            width, elems = rng.choice([(1, 4), (2, 2), (2, 3), (2, 4), (3, 2), (4, 2)])
+        depth = rng.choice([1, 2, 3, 4, 5, 6, 7, 8, 9, 12, 16] + ([17, 24, 32, 33, 40] if big else []))
+        width = rng.choice([1, 2, 3, 4, 5, 6, 8, 8, 12, 16, 32] + ([33, 64] if big else []))
+        elems, struct, signed = 0, None, False
+        r = rng.random()
+        if want != "F3" and r < (0.9 if want == "N1" else 0.15):  # ArrayLayout rows: granularity counts elements
+            width, elems = rng.choice([(1, 4), (2, 2), (2, 3), (2, 4), (3, 2), (4, 2), (8, 2), (5, 3)])
+        elif want is None and r < 0.23:  # StructLayout rows: [[field width, field signed], ...]; no granularity
+            struct = [[rng.choice([1, 2, 3, 5, 8]), rng.random() < 0.4] for _ in range(rng.choice([2, 3, 4]))]
+            width = sum(f[0] for f in struct)
+        elif want is None and r < 0.31 and width >= 2:  # signed rows: no granularity either
+            signed = True
         if want == "F3":
             depth, width = rng.choice([5, 6, 8, 9, 12]), 2
-        nr = rng.choice([1, 2, 2, 3])
-        nw = 1 if memtype == "MultiRead" else rng.choice([1, 2, 2, 3])
+        ports = [1, 2, 2, 3] + ([4] if big else [])
+        nr = rng.choice(ports)
+        nw = 1 if memtype == "MultiRead" else rng.choice(ports)
         gran = None
-        if memtype != "XOR" and rng.random() < (0.9 if want in ("F5", "F6", "F7", "N1") else 0.45):
+        if memtype != "XOR" and not struct and not signed and \
+                rng.random() < (0.9 if want in ("F5", "F6", "F7", "N1") else 0.45):
             n = elems or width
             divs = [g for g in range(1, n + 1) if n % g == 0]
             gran = rng.choice([1, n // 2 if n % 2 == 0 else 1, rng.choice(divs)])
-        return {"memtype": memtype, "depth": depth, "width": width, "elems": elems, "nr": nr, "nw": nw, "gran": gran,
-                "transparent": rng.random() < 0.5, "read_on_resp": rng.random() < 0.5}
+        return {"memtype": memtype, "depth": depth, "width": width, "elems": elems, "struct": struct, "signed": signed,
+                "nr": nr, "nw": nw, "gran": gran, "transparent": rng.random() < 0.5, "read_on_resp": rng.random() < 0.5}
 
     def gen_config(self, rng, tier, idx):
         big = tier == "thorough"
@@ -385,13 +464,16 @@ class Prop(PropBase):
         for _ in range(400):
             cfg = self._draw(rng, big, target if target != "any" else None)
             z = zones_of(cfg)
-            if target == "any" or z == ([target] if target else []):
+            live = [x for x in z if x in LIVE_ZONES and x != target]
+            if target == "any" or (not live and (target is None or target in z)):
                 break
         cycles = rng.randint(60, 260 if big else 180)
+        if cfg["memtype"] not in ("Memory", "MultiRead") and cfg["nr"] + cfg["nw"] >= 4:
+            cycles = min(cycles, 120)  # many memory blocks to simulate: shorter runs keep the batch time
         cfg["cycles"] = cycles
         cfg["sched"] = rng.choice(["eager", "eager", "rr"])
         cfg["plan"] = make_plan(rng, cycles, ["random", "random", "stall", "release", "stream", "fullpush", "hitpending",
-                                              "hitpending", "idle"], min_len=5, max_len=30)
+                                              "hitpending", "idle", "stallone", "stallone"], min_len=5, max_len=30)
         return cfg
 
     def make(self, cfg):
@@ -399,7 +481,7 @@ class Prop(PropBase):
 
     def features(self, cfg, viol):
         f = cfg_facts(cfg)
-        f["zone"] = "+".join(zones_of(cfg)) or "none"
+        f["zone"] = "+".join(z for z in zones_of(cfg) if z in LIVE_ZONES) or "none"  # repaired zones are ordinary
         return f
 
     def violation_class(self, feats):
@@ -410,10 +492,10 @@ class Prop(PropBase):
 
     def cfg_signature(self, cfg):
         return [cfg[k] for k in ("memtype", "depth", "width", "elems", "nr", "nw", "gran", "transparent", "read_on_resp",
-                                 "sched")]
+                                 "sched")] + [cfg.get("struct"), bool(cfg.get("signed"))]
 
     def shrink_cfg(self, cfg):
-        z0 = zones_of(cfg)
+        z0 = [z for z in zones_of(cfg) if z in LIVE_ZONES]
         cands = []
         if cfg["nr"] > 1:
             c = dict(cfg)
@@ -423,8 +505,8 @@ class Prop(PropBase):
             c = dict(cfg)
             c["nw"] = cfg["nw"] - 1
             cands.append(c)
-        for d in (2, 3, 4, cfg["depth"] - 1):
-            if 2 <= d < cfg["depth"]:
+        for d in (1, 2, 3, 4, cfg["depth"] - 1):
+            if 1 <= d < cfg["depth"]:
                 c = dict(cfg)
                 c["depth"] = d
                 cands.append(c)
@@ -440,8 +522,16 @@ class Prop(PropBase):
             c = dict(cfg)
             c["sched"] = "eager"
             cands.append(c)
+        if cfg.get("struct"):
+            c = dict(cfg)
+            c["struct"] = None
+            cands.append(c)
+        if cfg.get("signed"):
+            c = dict(cfg)
+            c["signed"] = False
+            cands.append(c)
         for c in cands:
-            if zones_of(c) == z0:
+            if [z for z in zones_of(c) if z in LIVE_ZONES] == z0:
                 yield c
 
 
